@@ -96,8 +96,8 @@ class FeeField(DataflowTransactionContext):
         return a if a.value < b.value else b
 
     @staticmethod
-    def _get_asserted_max_value(
-        comparison_ins: "Instruction", compared_value: FeeValue
+    def _get_asserted_max_value(  # pylint: disable=too-many-return-statements
+        comparison_ins: "Instruction", compared_value: FeeValue, field_is_second_operand: bool = False
     ) -> Tuple[FeeValue, FeeValue]:
         """Return maximum possible value that will make the comparison True and maximum
         possible value that will make the comparison False. Both values are upper bounded
@@ -106,11 +106,22 @@ class FeeField(DataflowTransactionContext):
         Args:
             comparison_ins: Comparison operator.
             compared_value: fee value being compared with.
+            field_is_second_operand: True if the comparison is `compared_value <op> Fee` and not
+                `Fee <op> compared_value`. `int 1000; txn Fee; <` is `1000 < Fee`.
 
         Returns:
             Max possible value that will make the comparison instruction return True and
                 Max possible value that will make the comparison False.
         """
+        is_less = isinstance(comparison_ins, Less)
+        is_less_e = isinstance(comparison_ins, LessE)
+        is_greater = isinstance(comparison_ins, Greater)
+        is_greater_e = isinstance(comparison_ins, GreaterE)
+        if field_is_second_operand:
+            # i < x is x > i
+            is_less, is_greater = is_greater, is_less
+            is_less_e, is_greater_e = is_greater_e, is_less_e
+
         # U = max_possible_value  # universal set
         if isinstance(comparison_ins, Eq):
             # x == i => i, U
@@ -118,18 +129,18 @@ class FeeField(DataflowTransactionContext):
         if isinstance(comparison_ins, Neq):
             # x != i => U, i
             return FeeValue(), compared_value
-        if isinstance(comparison_ins, Less):
+        if is_less:
             # x < i => (i - 1), U
             if compared_value.is_unknown:
                 return compared_value, FeeValue()
             return FeeValue(value=max(0, compared_value.value - 1)), FeeValue()
-        if isinstance(comparison_ins, LessE):
+        if is_less_e:
             # x <= i => i, U
             return compared_value, FeeValue()
-        if isinstance(comparison_ins, Greater):
+        if is_greater:
             # x > i => U, i
             return FeeValue(), compared_value
-        if isinstance(comparison_ins, GreaterE):
+        if is_greater_e:
             # x >= i => U, (i - 1)
             if compared_value.is_unknown:
                 return FeeValue(), compared_value
@@ -144,6 +155,7 @@ class FeeField(DataflowTransactionContext):
             arg1 = ins_stack_value.args[0]
             arg2 = ins_stack_value.args[1]
             compared_value: Optional[FeeValue] = None
+            field_is_second_operand = False
 
             if isinstance(arg1, UnknownStackValue) and isinstance(arg2, UnknownStackValue):
                 # Both the args are unknown
@@ -156,6 +168,7 @@ class FeeField(DataflowTransactionContext):
                     return FeeValue(), FeeValue()
                 # arg2 is related to key and arg1 is some unknown value
                 compared_value = FeeValue(is_unknown=True)
+                field_is_second_operand = True
             elif isinstance(arg2, UnknownStackValue):
                 if not isinstance(arg1, UnknownStackValue) and not is_value_matches_key(key, arg1):
                     # arg2 is unknown and arg1 is not related to "key"
@@ -170,6 +183,7 @@ class FeeField(DataflowTransactionContext):
                     compared_value = FeeValue(is_unknown=True)
 
             elif is_value_matches_key(key, arg2):
+                field_is_second_operand = True
                 is_int, value = is_int_push_ins(arg1.instruction)
                 if is_int and isinstance(value, int):
                     compared_value = FeeValue(value=value)
@@ -181,7 +195,7 @@ class FeeField(DataflowTransactionContext):
                 return FeeValue(), FeeValue()
 
             ins = ins_stack_value.instruction
-            return self._get_asserted_max_value(ins, compared_value)
+            return self._get_asserted_max_value(ins, compared_value, field_is_second_operand)
         return FeeValue(), FeeValue()
 
     def _get_asserted_single(
